@@ -618,7 +618,7 @@ func exec(x *fw.Ctx, c Case) {
 func init() {
 	fw.Register(fw.Spec[Case]{
 		ID: "C19",
-		Rule: "a fixed, seed-independent block of ~200 cases (hand-written examples of every load-formable kind, redefinition histories, three-level " +
+		Rule: "a fixed, seed-independent block of ~140 cases (hand-written examples of every load-formable kind, redefinition histories, three-level " +
 			"flavor chains, instances whose variables were set to nil and other empty values; for every avoid-set construct 3-4 generated cases, the " +
 			"first of them holding nothing but the construct), then seeded cases in the ratio 10 data objects (number, string, symbol, character, list, " +
 			"vector, array, hash table) : 6 code objects (defun, defmacro, lambda, compiled call, from a typed generator of pure code that reaches every " +
